@@ -307,7 +307,10 @@ func (p *envParser) parseMarkerExpr() (marker, error) {
 	// and right hand side as a constraint. === is a special case because
 	// its purpose to force string comparison, see PEP 440 for details
 	// (https://www.python.org/dev/peps/pep-0440/).
-	if l.version != nil && r.version != nil && o != markerOpEqualEqualEqual {
+	// Like pip's packaging, a comparison is a version comparison whenever the
+	// operator and the right-hand side form a valid specifier; a left-hand side
+	// that is not a version is then simply not contained in it.
+	if r.version != nil && o != markerOpEqualEqualEqual && o != markerOpIn && o != markerOpNotIn && l.name != "extra" && r.name != "extra" {
 		c, err := semver.PyPI.ParseConstraint(o.String() + r.value)
 		if err != nil {
 			return nil, err
@@ -428,6 +431,9 @@ func (me markerExpr) Eval(extras map[string]bool) bool {
 	}
 	// Try a version comparison first.
 	if me.constraint != nil {
+		if me.left.version == nil {
+			return false
+		}
 		return me.constraint.MatchVersion(me.left.version)
 	}
 	// Fall back to Python string behaviour where possible.
